@@ -7,7 +7,7 @@
      [3, bytes]                           csv_parse   -> records
    frame  = [[name, kind, cells] ...]   kind 0 str (cells = byte lists), 1 int (cells = [hi, lo],
             value hi*2^32+lo), 2 float literal (byte lists), 3 int of dtype int64 (as 1), 4 bool literal
-   rf     = [] | [[0, flags]] | [[1, name, flags]]
+   rf     = [] | [[0, flags]] | [[1, name, flags, own]]
    rfp    = [] | [flags]
    cf     = [] | [[0, name]] | [[1, names]]
    variant 0 = repaired code, 1 = code before the repairs. *)
@@ -49,8 +49,8 @@ Definition as_rf (v:val) : option rowfilter :=
   match v with
   | VL [] => Some RF_none
   | VL [VL [VZ 0; fl]] => match as_bools fl with Some b => Some (RF_arr b) | None => None end
-  | VL [VL [VZ 1; nm; fl]] =>
-    match as_list nm, as_bools fl with Some n, Some b => Some (RF_field n b) | _, _ => None end
+  | VL [VL [VZ 1; nm; fl; VZ own]] =>
+    match as_list nm, as_bools fl with Some n, Some b => Some (RF_field (negb (own =? 0)) n b) | _, _ => None end
   | _ => None
   end.
 
